@@ -730,6 +730,10 @@ impl<H: Helper> State<'_, '_, H> {
         }
         if first {
             if let Some(r) = history.get(0, SearchDirection::Forward)? {
+                if r.idx == self.ctx.history_index {
+                    // already on the oldest entry (its index is not 0 when older rows are gone)
+                    return Ok(());
+                }
                 let buf = r.entry;
                 self.ctx.history_index = r.idx;
                 self.changes.begin();
